@@ -478,6 +478,17 @@ def dispatch (op : String) (j : Json) : Except String Json := do
           | some r => return obj [("r", jQ r)]
           | none => return obj [("err", Json.str "ValueError")]
       | _ => throw "triple"
+  | "default-master" =>
+      let getPair := fun (j : Json) => do
+        match (← getArr j) with
+        | [t, v] => pure ((← getStr t), (← getQ v))
+        | _ => throw "pair"
+      let axes ← (← getArr (← field j "axes")).mapM getPair
+      let masters ← (← getArr (← field j "masters")).mapM (fun m => do (← getArr m).mapM getPair)
+      match Cfg.defaultMaster axes masters 0 with
+      | .ok (some i) => return obj [("r", Json.str (toString i))]
+      | .ok none => return obj [("r", Json.str "none")]
+      | .error _ => return obj [("r", Json.str "err")]
   | "validate-config" =>
       let names ← getStrs (← field j "names")
       let vals ← getInts (← field j "vals")
